@@ -151,6 +151,15 @@ func behave(b string, r reqLog, chain *vh.Chain, avail int, from int, chunk int)
 			hs[0] = c
 		}
 		return plan{items: okItems(hs), end: "close"}, heights(hs), false
+	case "decodePanic", "validatePanic":
+		// a body that makes the application's header type panic while it is decoded (or validated)
+		hs := hts(o, a)
+		if len(hs) > 0 {
+			c := hs[len(hs)/2].Clone()
+			c.DecodePanic = true
+			hs[len(hs)/2] = c
+		}
+		return plan{items: okItems(hs), end: "close"}, heights(hs), false
 	case "malformed":
 		return plan{items: []item{{status: p2p_pb.StatusCode_OK, body: []byte("\x07garbage")}}, end: "close"}, nil, false
 	case "unknownStatus":
@@ -180,6 +189,8 @@ func TestRange(t *testing.T) {
 			degenerate = true
 		}
 		capable := false
+		curTr := id // the trace id events are logged under (a second session of the same client gets its own)
+		var second []RangeEv
 		synctest.Test(t, func(t *testing.T) {
 			bg := context.Background()
 			chain := vh.NewChain(networkID, 1, from+amount+chunk+8, time.Now().Add(-time.Hour), time.Second, 0)
@@ -199,17 +210,27 @@ func TestRange(t *testing.T) {
 				trusted = append(trusted, hosts[idx].ID())
 				newSpeer(hosts[idx], false, func(r reqLog) plan {
 					b := "serve"
-					if r.N < len(script) {
+					if r.N < len(script) && curTr == id { // (in the second session every peer is fault-free)
 						b = script[r.N]
 					}
-					log.add(RangeEv{Tr: id, Ev: "req", Peer: idx, O: int(r.Origin), A: int(r.Amount)})
+					log.add(RangeEv{Tr: curTr, Ev: "req", Peer: idx, O: int(r.Origin), A: int(r.Amount)})
+					if b == "dropOthers" {
+						// while this (lagging) peer is answering, the connections to every other peer are lost; the links stay,
+						// so the client can dial them again
+						for j := 1; j < len(hosts); j++ {
+							if j != idx {
+								_ = net.DisconnectPeers(hosts[0].ID(), hosts[j].ID())
+							}
+						}
+						b = "notfound"
+					}
 					pl, sent, valid := behave(b, r, chain, avail, from, chunk)
 					if pl.end == "hold" || pl.end == "reset" || len(pl.items) == 0 {
 						sent, valid = nil, false
 					} else if len(pl.items) == 1 && pl.items[0].status == p2p_pb.StatusCode_NOT_FOUND {
 						sent, valid = nil, false
 					}
-					log.add(RangeEv{Tr: id, Ev: "resp", Peer: idx, O: int(r.Origin), A: int(r.Amount), B: b, Sent: sent, Valid: valid && len(sent) > 0})
+					log.add(RangeEv{Tr: curTr, Ev: "resp", Peer: idx, O: int(r.Origin), A: int(r.Amount), B: b, Sent: sent, Valid: valid && len(sent) > 0})
 					return pl
 				})
 			}
@@ -262,6 +283,69 @@ func TestRange(t *testing.T) {
 				res.Hung = true
 			}
 			log.add(res)
+			if mode == "honest" && capable && res.OK && !degenerate {
+				// the same request once more on the same client: every peer is honest and fault-free by now (the scripts
+				// are used up), so a peer that merely timed out or dropped a stream before must still be usable
+				log.mu.Lock()
+				first := log.evs
+				log.evs = nil
+				log.mu.Unlock()
+				curTr = id + 5000000
+				if mbt.Bool(c, "soloSecond") {
+					// the peers that never faulted leave the network for good: the one that only timed out / dropped a
+					// stream / lagged once is honest and complete, and is all that is left
+					for i, pi := range peersIn {
+						pm, _ := pi.(map[string]any)
+						if len(mbt.Strs(pm["script"])) == 0 {
+							_ = net.DisconnectPeers(hosts[0].ID(), hosts[i+1].ID())
+							_ = net.UnlinkPeers(hosts[0].ID(), hosts[i+1].ID())
+						}
+					}
+					synctest.Wait()
+				}
+				log.add(RangeEv{Tr: curTr, Ev: "start", From: from, Amount: amount, Chunk: chunk, Mode: mode, Capable: capable})
+				done2 := make(chan out, 1)
+				go func() {
+					var o out
+					defer func() {
+						if r := recover(); r != nil {
+							o.p = r
+						}
+						done2 <- o
+					}()
+					ctx, cancel := context.WithTimeout(bg, 2*time.Minute)
+					defer cancel()
+					o.hs, o.err = ex.GetRangeByHeight(ctx, chain.At(uint64(from)), toU)
+				}()
+				res2 := RangeEv{Tr: curTr, Ev: "result"}
+				time.Sleep(3 * time.Minute)
+				synctest.Wait()
+				select {
+				case o := <-done2:
+					res2.Panicked = o.p != nil
+					res2.OK = o.err == nil && o.p == nil
+					if o.err != nil {
+						res2.Err = o.err.Error()
+						if len(res2.Err) > 100 {
+							res2.Err = res2.Err[:100]
+						}
+					}
+					for _, h := range o.hs {
+						if h == nil || !chain.IsCanon(h) {
+							res2.BadHeader = true
+							continue
+						}
+						res2.Heights = append(res2.Heights, int(h.H))
+					}
+				default:
+					res2.Hung = true
+				}
+				log.add(res2)
+				log.mu.Lock()
+				second = log.evs
+				log.evs = first
+				log.mu.Unlock()
+			}
 			_ = ex.Stop(bg)
 			_ = net.Close()
 			time.Sleep(time.Minute)
@@ -282,6 +366,9 @@ func TestRange(t *testing.T) {
 		for _, e := range evs {
 			tw.Put(e)
 			last = e
+		}
+		for _, e := range second { // (starts with its own "start" event)
+			tw.Put(e)
 		}
 		r := mbt.Result{ID: id, Key: mbt.J(c), NonTriv: !last.OK || len(evs) > 4, Verdict: "ok"}
 		if last.Panicked {
